@@ -28,6 +28,8 @@ type Harness struct {
 	Scratch   string
 	KeepTrace bool
 	NSites    int
+	// QuiescenceWait is testing/synctest.Wait when running inside a bubble (see simrt.SetQuiescenceWait).
+	QuiescenceWait func()
 	// Progress is updated before each phase (read by the CPU watchdog).
 	Progress func(run int, phase string)
 }
@@ -44,7 +46,7 @@ type Outcome struct {
 	Sys      *SysHistory
 }
 
-func resetGlobals() {
+func resetGlobalsOnly() {
 	canvas.VerifResetGlobals()
 	text.VerifResetGlobals()
 	pdf.VerifResetGlobals()
@@ -52,6 +54,13 @@ func resetGlobals() {
 	ps.VerifResetGlobals()
 	rasterizer.VerifResetGlobals()
 	simrt.ResetPtrs()
+}
+
+// resetGlobals puts package state back to a fresh process's and re-applies the run's tunables (a
+// tunable that the library writes somewhere is itself part of the reset state).
+func resetGlobals(spec *RunSpec) {
+	resetGlobalsOnly()
+	setTunables(spec.Tunables)
 }
 
 type savedTunables struct {
@@ -96,7 +105,7 @@ func (h *Harness) solo(spec *RunSpec, seedOf func(t int) uint64, only [][]bool) 
 			if only != nil && !only[t][s] {
 				continue
 			}
-			resetGlobals()
+			resetGlobals(spec)
 			env, err := NewEnv(h.Resources, h.FontDir, spec.Fonts, true)
 			if err != nil {
 				return nil, nil, err
@@ -185,7 +194,7 @@ func (h *Harness) Execute(spec *RunSpec) (*RunReport, *Outcome, error) {
 
 	// ---- simulation: all tasks together under the seeded scheduler, shared simulated pools
 	h.progress(spec.Run, "sim")
-	resetGlobals()
+	resetGlobals(spec)
 	env, err := NewEnv(h.Resources, h.FontDir, spec.Fonts, false)
 	if err != nil {
 		return nil, nil, err
@@ -235,8 +244,15 @@ func (h *Harness) Execute(spec *RunSpec) (*RunReport, *Outcome, error) {
 		}
 	}
 	simrt.ResetRangeCounts()
+	if h.QuiescenceWait != nil {
+		sim.SetQuiescenceWait(h.QuiescenceWait)
+	}
 	sim.Run(bodies)
 	simrt.SetLiveSites(nil)
+	leaked := map[int]bool{}
+	for _, id := range sim.Stats().Leaked {
+		leaked[id] = true
+	}
 	rep.Ranges, rep.RangesMulti = simrt.RangeCounts()
 	out.Sim = res
 	out.Recorded = sim.Recorded()
@@ -255,6 +271,22 @@ func (h *Harness) Execute(spec *RunSpec) (*RunReport, *Outcome, error) {
 	// ---- O1 / O2
 	rh := newHasher()
 	for t := range ref {
+		if leaked[t] {
+			// the task is blocked forever on a channel / Cond / WaitGroup of the code under test;
+			// its goroutine never finished, so its results are not read
+			op := "?"
+			if len(spec.Tasks[t].Steps) > 0 {
+				op = spec.Tasks[t].Steps[0].Op
+			}
+			ops := ""
+			for _, st := range spec.Tasks[t].Steps {
+				ops += " " + st.Op
+			}
+			rep.Violations = append(rep.Violations, Violation{Class: "deadlock", Task: t, Op: op,
+				Detail: "task " + fmt.Sprint(t) + " (calls:" + ops + ") is blocked forever outside the simulator's primitives (channel/Cond/WaitGroup of the code under test) after every other task has finished; alone every call returned",
+				Sig:    "deadlock:blocked-forever"})
+			continue
+		}
 		for s := range ref[t] {
 			a, b := ref[t][s], res[t][s]
 			if b.Fault {
